@@ -268,7 +268,11 @@ TimerFire(n) ==
   /\ IsVoter(s, n) \/ "NonVoterCampaigns" \in W
   /\ s.term < MaxTerm
   /\ Spend("timer")
-  /\ LET s1 == IF s.role = "C" THEN BecomeCandidate(s, n)
+  /\ LET \* a candidate may hold the election its prevote permitted (role C reached with `stay':
+         \* the prevote round is still the current round, pre = TRUE); a candidate whose
+         \* election timed out goes back to the prevote (fix for S13; the weakening restores
+         \* the former behaviour: term incremented again without a prevote)
+         s1 == IF s.role = "C" /\ (s.pre \/ "CandidateNoPrevote" \in W) THEN BecomeCandidate(s, n)
                ELSE [s EXCEPT !.role = "P", !.votes = 1, !.asked = {}, !.pre = TRUE]
          \* only voter: nobody to ask, leader at once -- through becomeCandidate (new term, own
          \* vote) since fix bc71823; the weakening restores the old shortcut
